@@ -3,11 +3,11 @@ From Mxj Require Import Spec.StreamSpec Proofs.C13P Proofs.JsonP Proofs.C13Json.
 Import ListNotations.
 
 Section Generic.
-Context {T : Type} (next : list rev -> option (res value * T * list rev)).
+Context {T : Type} (next : list rev -> option (res value * T * list rev)) (P : list rev -> bool).
 
-(* over every clean schedule of X one call returns (r, t) and leaves a clean schedule of X' *)
+(* over every legal schedule of X (on which the reader P-behaves) one call returns (r, t) and leaves such a schedule of X' *)
 Definition reads (X : str) (r : res value) (t : T) (X' : str) : Prop :=
-  forall sc, clean_for X sc -> exists sc', next sc = Some (r, t, sc') /\ clean_for X' sc'.
+  forall sc, okfor P X sc -> exists sc', next sc = Some (r, t, sc') /\ okfor P X' sc'.
 
 (* X holds the documents with results vs (in order) and then ends with the result fin *)
 Inductive stream_of : str -> list (value * T) -> res value * T -> Prop :=
@@ -15,7 +15,7 @@ Inductive stream_of : str -> list (value * T) -> res value * T -> Prop :=
 | SO_doc : forall X v t X' vs fin, reads X (Ok v) t X' -> stream_of X' vs fin -> stream_of X ((v, t) :: vs) fin.
 
 Lemma read_docs_stream_of : forall X vs fin, stream_of X vs fin ->
-  forall fuel sc, clean_for X sc -> length vs < fuel ->
+  forall fuel sc, okfor P X sc -> length vs < fuel ->
   read_docs next fuel sc = map (fun p => (Ok (fst p), snd p)) vs ++ [fin].
 Proof.
   induction 1 as [X r t X' Hr Hok|X v t X' vs fin Hr Hs IH]; intros fuel sc Hc Hf.
@@ -34,11 +34,11 @@ Fixpoint handler_calls (mh : nat -> value -> bool) (k : nat) (docs : list (value
   end.
 
 Section Handlers.
-Context (next : list rev -> option (res value * str * list rev)).
+Context (next : list rev -> option (res value * str * list rev)) (P : list rev -> bool).
 
-Lemma handle_loop_stream : forall X vs t, stream_of next X vs (Err EEOF, t) ->
-  Forall (fun p => nonempty_map (fst p) = true) vs ->
-  forall mh eh fuel calls sc, clean_for X sc -> length vs < fuel ->
+Lemma handle_loop_stream : forall X vs t, stream_of next P X vs (Err EEOF, t) ->
+  Forall (fun p => non_nil (fst p) = true) vs ->
+  forall mh eh fuel calls sc, okfor P X sc -> length vs < fuel ->
   exists rest, handle_loop next mh eh fuel calls 0 sc =
     Some {| h_calls := calls ++ handler_calls mh (length calls) vs; h_errs := 0; h_ret := Ok tt; h_rest := rest |}.
 Proof.
@@ -55,9 +55,9 @@ Proof.
 Qed.
 
 (* file readers: all the documents *)
-Lemma maps_loop_stream : forall X vs t, stream_of next X vs (Err EEOF, t) ->
-  Forall (fun p => nonempty_map (fst p) = true) vs ->
-  forall fuel am sc, clean_for X sc -> length vs < fuel ->
+Lemma maps_loop_stream : forall X vs t, stream_of next P X vs (Err EEOF, t) ->
+  Forall (fun p => non_nil (fst p) = true) vs ->
+  forall fuel am sc, okfor P X sc -> length vs < fuel ->
   maps_loop next fuel am sc = Some (am ++ vs, Ok tt).
 Proof.
   intros X vs t Hs. remember (Err EEOF, t) as fin eqn:Hfin.
@@ -75,20 +75,20 @@ End Handlers.
 Definition doc_val (M : xmachine) (d : str) : value := match decode_doc M d with Ok v => v | _ => VNil end.
 
 Lemma xml_raw_reads : forall (M : xmachine) X,
-  reads (new_map_xml_reader_raw M) X (fst (direct M (m_init M) X)) (firstn (snd (direct M (m_init M) X)) X)
+  reads (new_map_xml_reader_raw M) zero_bounded X (fst (direct M (m_init M) X)) (firstn (snd (direct M (m_init M) X)) X)
         (skipn (snd (direct M (m_init M) X)) X).
-Proof. intros M X sc Hc. exact (new_map_xml_reader_raw_clean M X sc Hc). Qed.
+Proof. intros M X sc Hc. exact (new_map_xml_reader_raw_ok M X sc Hc). Qed.
 
 Lemma xml_reads : forall (M : xmachine) X,
-  reads (with_unit_raw (new_map_xml_reader M)) X (fst (direct M (m_init M) X)) [] (skipn (snd (direct M (m_init M) X)) X).
+  reads (with_unit_raw (new_map_xml_reader M)) zero_bounded X (fst (direct M (m_init M) X)) [] (skipn (snd (direct M (m_init M) X)) X).
 Proof.
-  intros M X sc Hc. destruct (new_map_xml_reader_clean M X sc Hc) as (sc' & E & Hc').
+  intros M X sc Hc. destruct (new_map_xml_reader_ok M X sc Hc) as (sc' & E & Hc').
   exists sc'. unfold with_unit_raw. rewrite E. auto.
 Qed.
 
 Lemma xml_raw_stream_of : forall (M : xmachine) ds tail,
   docs_ok M ds -> eof_on_blanks M -> blank tail = true ->
-  stream_of (new_map_xml_reader_raw M) (stream ds tail)
+  stream_of (new_map_xml_reader_raw M) zero_bounded (stream ds tail)
             (map (fun wd => (doc_val M (snd wd), fst wd ++ snd wd)) ds) (Err EEOF, tail).
 Proof.
   intros M. induction ds as [|[w d] ds IH]; intros tail Hd He Ht.
@@ -97,14 +97,14 @@ Proof.
   - inversion Hd as [|? ? [Hw [Hs Hok]] Hd']; subst. cbn in Hw, Hs, Hok. cbn [stream map fst snd].
     pose proof (xml_raw_reads M (w ++ d ++ stream ds tail)) as Hr. rewrite (Hs w (stream ds tail) Hw) in Hr. cbn [fst snd] in Hr.
     rewrite <- app_length, app_assoc, firstn_app_exact, skipn_app_exact in Hr.
-    unfold doc_val. destruct (decode_doc M d) as [v| |] eqn:E; try discriminate.
+    unfold doc_val. destruct (okmap_ok _ Hok) as [mm E]. rewrite E in *.
     rewrite <- app_assoc in Hr.
     eapply SO_doc; [exact Hr|]. now apply IH.
 Qed.
 
 Lemma xml_stream_of : forall (M : xmachine) ds tail,
   docs_ok M ds -> eof_on_blanks M -> blank tail = true ->
-  stream_of (with_unit_raw (new_map_xml_reader M)) (stream ds tail)
+  stream_of (with_unit_raw (new_map_xml_reader M)) zero_bounded (stream ds tail)
             (map (fun wd => (doc_val M (snd wd), [])) ds) (Err EEOF, []).
 Proof.
   intros M. induction ds as [|[w d] ds IH]; intros tail Hd He Ht.
@@ -113,7 +113,7 @@ Proof.
   - inversion Hd as [|? ? [Hw [Hs Hok]] Hd']; subst. cbn in Hw, Hs, Hok. cbn [stream map fst snd].
     pose proof (xml_reads M (w ++ d ++ stream ds tail)) as Hr. rewrite (Hs w (stream ds tail) Hw) in Hr. cbn [fst snd] in Hr.
     rewrite <- app_length, app_assoc, skipn_app_exact in Hr.
-    unfold doc_val. destruct (decode_doc M d) as [v| |] eqn:E; try discriminate.
+    unfold doc_val. destruct (okmap_ok _ Hok) as [mm E]. rewrite E in *.
     rewrite <- app_assoc in Hr.
     eapply SO_doc; [exact Hr|]. now apply IH.
 Qed.
@@ -121,24 +121,27 @@ Qed.
 (* ------------------------------------------------------------------ JSON instances *)
 
 (* a stream of marshalled objects *)
+Section JsonStreams.
+Variable eh : bool.    (* the documents were written with or without HTML escaping *)
+
 Fixpoint jstream (ds : list (str * entries)) (tail : str) : str :=
   match ds with
   | [] => tail
-  | (w, m) :: t => w ++ marshal (VMap m) ++ jstream t tail
+  | (w, m) :: t => w ++ marshal eh (VMap m) ++ jstream t tail
   end.
 Definition jdocs_ok (nmj : str -> res value) (ds : list (str * entries)) : Prop :=
   Forall (fun wm => blank (fst wm) = true /\ scan_safe (VMap (snd wm)) = true /\
-                    is_ok (nmj (marshal (VMap (snd wm)))) = true) ds.
+                    is_okmap (nmj (marshal eh (VMap (snd wm)))) = true) ds.
 Definition jdoc_val (nmj : str -> res value) (m : entries) : value :=
-  match nmj (marshal (VMap m)) with Ok v => v | _ => VNil end.
+  match nmj (marshal eh (VMap m)) with Ok v => v | _ => VNil end.
 
-Lemma marshal_vmap_cons : forall m, exists t, marshal (VMap m) = lbrace :: t.
+Lemma marshal_vmap_cons : forall m, exists t, marshal eh (VMap m) = lbrace :: t.
 Proof. intro m. unfold marshal. rewrite segments_vmap. eexists. reflexivity. Qed.
 
-Lemma get_json_blanks : forall tail sc, blank tail = true -> clean_for tail sc ->
-  exists sc', get_json sc = Some (JErr [] EEOF, sc') /\ clean_for [] sc'.
+Lemma get_json_blanks : forall tail sc, blank tail = true -> okfor anysc tail sc ->
+  exists sc', get_json sc = Some (JErr [] EEOF, sc') /\ okfor anysc [] sc'.
 Proof.
-  intros tail sc Hb Hc. destruct (get_json_clean tail sc Hc) as (sc' & E & Hc').
+  intros tail sc Hb Hc. destruct (get_json_ok tail sc Hc) as (sc' & E & Hc').
   assert (Hd : direct jmachine jinit tail = (JErr [] EEOF, length tail)).
   { pose proof (direct_steps jmachine tail [] jinit jinit (steps_blanks tail Hb)) as H.
     rewrite app_nil_r in H. rewrite H. cbn. now rewrite Nat.add_0_r. }
@@ -146,30 +149,30 @@ Proof.
 Qed.
 
 Lemma get_json_doc : forall w m rest sc, blank w = true -> scan_safe (VMap m) = true ->
-  clean_for (w ++ marshal (VMap m) ++ rest) sc ->
-  exists sc', get_json sc = Some (JOk (marshal (VMap m)), sc') /\ clean_for rest sc'.
+  okfor anysc (w ++ marshal eh (VMap m) ++ rest) sc ->
+  exists sc', get_json sc = Some (JOk (marshal eh (VMap m)), sc') /\ okfor anysc rest sc'.
 Proof.
-  intros w m rest sc Hb Hs Hc. destruct (get_json_clean _ sc Hc) as (sc' & E & Hc').
-  rewrite (scan_marshal m w rest Hs Hb) in E, Hc'. cbn [fst snd] in E, Hc'.
+  intros w m rest sc Hb Hs Hc. destruct (get_json_ok _ sc Hc) as (sc' & E & Hc').
+  rewrite (scan_marshal eh m w rest Hs Hb) in E, Hc'. cbn [fst snd] in E, Hc'.
   rewrite <- app_length, app_assoc, skipn_app_exact in Hc'. eauto.
 Qed.
 
 Lemma json_raw_stream_of : forall nmj ds tail, jdocs_ok nmj ds -> blank tail = true ->
-  stream_of (new_map_json_reader_raw nmj) (jstream ds tail)
-            (map (fun wm => (jdoc_val nmj (snd wm), marshal (VMap (snd wm)))) ds) (Err EEOF, []).
+  stream_of (new_map_json_reader_raw nmj) anysc (jstream ds tail)
+            (map (fun wm => (jdoc_val nmj (snd wm), marshal eh (VMap (snd wm)))) ds) (Err EEOF, []).
 Proof.
   intros nmj. induction ds as [|[w m] ds IH]; intros tail Hd Ht.
   - cbn. eapply SO_end with (X' := []); [|reflexivity]. intros sc Hc.
     destruct (get_json_blanks tail sc Ht Hc) as (sc' & E & Hc'). exists sc'. unfold new_map_json_reader_raw. rewrite E. auto.
   - inversion Hd as [|? ? [Hw [Hs Hok]] Hd']; subst. cbn [fst snd] in Hw, Hs, Hok. cbn [jstream map fst snd].
-    unfold jdoc_val. destruct (nmj (marshal (VMap m))) as [v| |] eqn:En; try (cbn in Hok; discriminate).
+    unfold jdoc_val. destruct (okmap_ok _ Hok) as [mm En]. rewrite En.
     eapply SO_doc with (X' := jstream ds tail); [|now apply IH]. intros sc Hc.
     destruct (get_json_doc w m _ sc Hw Hs Hc) as (sc' & E & Hc'). exists sc'. unfold new_map_json_reader_raw. rewrite E.
     destruct (marshal_vmap_cons m) as [t Hm]. rewrite Hm in *. rewrite En. auto.
 Qed.
 
 Lemma json_stream_of : forall nmj ds tail, jdocs_ok nmj ds -> blank tail = true ->
-  stream_of (with_unit_raw (new_map_json_reader nmj)) (jstream ds tail)
+  stream_of (with_unit_raw (new_map_json_reader nmj)) anysc (jstream ds tail)
             (map (fun wm => (jdoc_val nmj (snd wm), [])) ds) (Err EEOF, []).
 Proof.
   intros nmj. induction ds as [|[w m] ds IH]; intros tail Hd Ht.
@@ -177,9 +180,10 @@ Proof.
     destruct (get_json_blanks tail sc Ht Hc) as (sc' & E & Hc'). exists sc'.
     unfold with_unit_raw, new_map_json_reader. rewrite E. auto.
   - inversion Hd as [|? ? [Hw [Hs Hok]] Hd']; subst. cbn [fst snd] in Hw, Hs, Hok. cbn [jstream map fst snd].
-    unfold jdoc_val. destruct (nmj (marshal (VMap m))) as [v| |] eqn:En; try (cbn in Hok; discriminate).
+    unfold jdoc_val. destruct (okmap_ok _ Hok) as [mm En]. rewrite En.
     eapply SO_doc with (X' := jstream ds tail); [|now apply IH]. intros sc Hc.
     destruct (get_json_doc w m _ sc Hw Hs Hc) as (sc' & E & Hc'). exists sc'.
     unfold with_unit_raw, new_map_json_reader. rewrite E.
     destruct (marshal_vmap_cons m) as [t Hm]. rewrite Hm in *. rewrite En. auto.
 Qed.
+End JsonStreams.
